@@ -297,11 +297,21 @@ func TestC12(t *testing.T) {
 			{Argv: []string{"text", "conv", "degree"}, Input: "1[1]{z=1,a=2,m=3,txt=x,b=4,key=D,y=5,c=6}", HasInput: true},
 			{Argv: []string{"write", "parse"}, Input: "- values: [1]\n  meta: {z: a, b: c, y: d, a: e, x: f, c: g}\n  chord: {degree: \"1\", name: m9}\n", HasInput: true},
 		}
+		// the tree walker that classifies a text runs in its own goroutine: a long tacet intro before the first
+		// chord, and a piece long enough for scheduling to matter
+		tacet := strings.Repeat("R[4] ", 60)
+		fixed = append(fixed,
+			C12Case{Argv: []string{"text", "conv", "degree"}, Input: tacet + "1[2] 5_7/7[2] 6m[4]{txt=verse}\n", HasInput: true},
+			C12Case{Argv: []string{"text", "conv", "syllable", "--key", "Eb"}, Input: tacet + strings.Repeat("Eb[1] Bb_7/D[1] Cm[2] ", pick(1500, 15000)) + "\n", HasInput: true},
+		)
 		for i, c := range fixed {
 			if !myShare(i) {
 				continue
 			}
 			c.Repeats = reps * 2
+			if len(c.Input) > 100000 {
+				c.Repeats = reps
+			}
 			r.Case(fmt.Sprint(c.Argv, c.Input), true, "fixed:"+cmdName(c.Argv))
 			r.Check(t, checkC12(c), "c12", c)
 		}
